@@ -169,7 +169,7 @@ func callWrapsError(call *ssa.Call) bool {
 }
 
 func checkC05(c *Ctx, r *Report) {
-	r.Rules = []string{"D1+D5 plan decision table", "D6 Less ordering table", "K2 insert-after-collision-check", "K1 key=destination", "O5 parents-before-entry / sort-before-return", "T2 order-insensitive map iteration (files, glob)", "G-base the base of every relative-path computation is a whole directory", "G-prefix no bare string-prefix containment test on paths", "G-cutset trim cutsets with path characters are single characters", "G-rooted absolute-path normalisers anchor at the root before cleaning", "fixture", "O5-parents-clean ancestors are those of the normalised destination", "D5-glob-source expanded entries come from glob.Glob", "K2b an implied directory (and nothing else) is replaced by a declared one", "K2c an occupant of the other kind always fails; an occupant under the insert's key fails or is replaced", "K5-changelog the generated deb changelog entry joins the contents whenever a changelog is configured", "K6-sorted-search binary searches run over literal tables in ascending order", "G-into-dir base-name placement is decided by the destination's trailing slash alone", "K7-no-dedup the planner keeps no side table by which later entries are dropped silently"}
+	r.Rules = []string{"D1+D5 plan decision table", "D6 Less ordering table", "K2 insert-after-collision-check", "K1 key=destination", "O5 parents-before-entry / sort-before-return", "T2 order-insensitive map iteration (files, glob)", "G-base the base of every relative-path computation is a whole directory", "G-prefix no bare string-prefix containment test on paths", "G-cutset trim cutsets with path characters are single characters", "G-rooted absolute-path normalisers anchor at the root before cleaning", "fixture", "O5-parents-clean ancestors are those of the normalised destination", "D5-glob-source expanded entries come from glob.Glob", "K2b an implied directory (and nothing else) is replaced by a declared one", "K2c an occupant of the other kind always fails; an occupant under the insert's key fails or is replaced", "K5-changelog the generated deb changelog entry joins the contents whenever a changelog is configured", "K6-sorted-search binary searches run over literal tables in ascending order", "G-into-dir base-name placement is decided by the destination's trailing slash alone", "K7-no-dedup the planner keeps no side table by which later entries are dropped silently", "K5-before-plan the generated changelog entry is added before PrepareForPackager", "K8-implicit-only-dirs only an entry known to be a directory is demoted to an implied one", "select-W3-shared-slice the per-format selection in Config.Get does not write into the configuration's list (rule of C11)"}
 	r.Explanation = "Static decision of the structural necessary conditions of content planning: (D1+D5) files.PrepareForPackager is abstractly evaluated (finite-domain constant propagation over go/ssa, no execution) for every cell packager x entry-packager-tag x entry type, and the set of live plan mechanisms (skip / dir insert / single insert / tree walk / glob / invalid-type error) is compared with the table transcribed from the statement; (D6) Contents.Less is evaluated on all 27 orderings of (destination, type, packager) and must be the lexicographic order; (K2) every insert into the destination map is dominated by a lookup on the same map whose occupied edge can return the collision error; (O5) parents are added before each declared entry and the returned slice is sorted before every success return; (T2) every map range in files/glob is order-insensitive by an enumerated idiom; (G-base) every definition of the base argument of filepath.Rel in files and internal/glob is the entry's configured path or was cut at a separator by filepath.Dir after any string slicing, and (G-prefix) no strings.HasPrefix/TrimPrefix/CutPrefix in those packages takes a computed prefix that does not end in a separator by construction - a common string prefix is not a directory. Not decided: lexical cleaning, which directory is the deepest common one for a given match list, tree walking on disk."
 	r.Explanation += " (G-cutset) constant cutsets of strings.Trim* that contain path characters are single characters. (G-rooted) every return of files.NormalizeAbsolute* is cleaned after being anchored at the root, and a '/' suffix is appended only where the root has been told apart. (O5-parents-clean) the enumeration of an entry's ancestors starts from its normalised destination. (K3) the helper that switches between the two key spellings is given the entry's normalised key."
 	r.Explanation += " (K2c) from the occupied edge of every collision probe all paths end in an error return - or, under the insert's own key, at the insert (whose admissible occupants K2b decides) - never back in the scan or at a success return; inserts of implied parents are exempt under their own key. (K5-changelog) the function that creates the changelog-typed entry, evaluated with a changelog configured, must-reaches the store of the extended contents."
@@ -1452,11 +1452,27 @@ func checkOtherKindFails(c *Ctx, r *Report, fn *ssa.Function, mu *ssa.MapUpdate,
 // configured - a test of the declared contents in front of it ("already
 // there") would let a declared entry at that destination silently win.
 func checkChangelogJoinsPlan(c *Ctx, r *Report) {
+	checkImplicitOnlyDirs(c, r)
+	// the selection of the entries addressed to a packager (Config.Get) leaves
+	// the configuration's own list alone: filtered in place, the next format's
+	// selection starts from what the previous one kept (rule of C11)
+	if get := c.Method("", "Config", "Get"); get != nil {
+		tmpS := newReport("tmp")
+		nSites := checkSharedSlicesIn(c, tmpS, c.Reach(get))
+		for _, o := range tmpS.Obls {
+			if o.Rule == "W3-shared-slice" {
+				o.Rule = "select-W3-shared-slice"
+				r.Obls = append(r.Obls, o)
+			}
+		}
+		r.Pass("select-W3-shared-slice", "Config.Get: slice writes below the selection examined", c.pos(get.Pos()), fmt.Sprintf("%d element store / append / in-place call site(s) examined in %d function(s)", nSites, len(c.Reach(get))))
+	}
 	pk := c.PackagerByFormat("deb")
 	if pk == nil {
 		return
 	}
-	n := 0
+	n, nPlan := 0, 0
+	defer func() { r.Floor("K5-before-plan", nPlan, 1) }()
 	for _, fn := range sortedFuncs(c, c.Reach(pk.Package)) {
 		if c.funcPkgPath(fn) != pk.PkgPath {
 			continue
@@ -1495,6 +1511,39 @@ func checkChangelogJoinsPlan(c *Ctx, r *Report) {
 		})
 		r.Check(must, "K5-changelog", "deb: the generated changelog entry joins the contents whenever a changelog is configured ("+c.funcKey(fn)+")", c.pos(fn.Pos()),
 			"with a changelog configured some path returns without adding the entry: a declared entry at the changelog's destination would take its place without the collision being reported")
+		// ... and it joins them before the plan is made: an entry appended
+		// to the prepared contents is never checked for a collision, has no
+		// parent directories and stands behind the sorted entries
+		prep := c.Func("", "PrepareForPackager")
+		for _, host := range sortedFuncs(c, c.Reach(pk.Package)) {
+			if c.funcPkgPath(host) != pk.PkgPath || prep == nil {
+				continue
+			}
+			var prepCalls, addCalls []*ssa.Call
+			forEachInstr(host, func(in ssa.Instruction) {
+				call, ok := in.(*ssa.Call)
+				if !ok || call.Call.StaticCallee() == nil {
+					return
+				}
+				sc := call.Call.StaticCallee()
+				if sc == prep {
+					prepCalls = append(prepCalls, call)
+				} else if sc == fn || (c.isModuleFunc(sc) && c.Reach(sc)[fn]) {
+					addCalls = append(addCalls, call)
+				}
+			})
+			for i, pc := range prepCalls {
+				before := false
+				for _, ac := range addCalls {
+					if ac.Block() == pc.Block() && instrIndexOf(ac) < instrIndexOf(pc) || ac.Block() != pc.Block() && ac.Block().Dominates(pc.Block()) {
+						before = true
+					}
+				}
+				r.Check(before, "K5-before-plan", fmt.Sprintf("deb: the changelog entry is added before the plan is made (PrepareForPackager#%d in %s)", i+1, c.funcKey(host)), c.instrPos(pc),
+					"no call adding the generated changelog entry dominates this PrepareForPackager call: the entry would be appended to contents that are already planned - unchecked for collisions, without its parent directories, out of order")
+				nPlan++
+			}
+		}
 	}
 	r.Floor("K5-changelog", n, 1)
 }
@@ -1815,4 +1864,96 @@ func checkNoSilentDedup(c *Ctx, r *Report, reach map[*ssa.Function]bool) {
 		})
 	}
 	r.Count("side_table_lookups_in_planner", n)
+}
+
+// checkImplicitOnlyDirs (K8-implicit-only-dirs): an entry is marked as an
+// implied directory (one the packagers leave out) either when it is built as
+// one, or where the same entry has just been marked a directory. A demotion
+// that also reaches files and links drops them from the package whenever their
+// destination coincides with a path the filesystem package owns.
+func checkImplicitOnlyDirs(c *Ctx, r *Report) {
+	n := 0
+	for _, fn := range c.ModFuncs {
+		if c.funcPkgPath(fn) != modPath+"/files" {
+			continue
+		}
+		k := 0
+		forEachInstr(fn, func(in ssa.Instruction) {
+			st, ok := in.(*ssa.Store)
+			if !ok {
+				return
+			}
+			fa, ok := st.Addr.(*ssa.FieldAddr)
+			if !ok || !isContentPtr(fa.X.Type()) || fieldName(fa.X.Type(), fa.Field) != "Type" {
+				return
+			}
+			kv, isK := st.Val.(*ssa.Const)
+			if !isK || !isConstString(kv) || constString(kv) != typeImplicitDir {
+				return
+			}
+			n++
+			k++
+			// other stores to the Type of the same object
+			var others []*ssa.Store
+			if refs := fa.X.Referrers(); refs != nil {
+				for _, ref := range *refs {
+					fa2, ok := ref.(*ssa.FieldAddr)
+					if !ok || fa2 == fa || fieldName(fa2.X.Type(), fa2.Field) != "Type" {
+						continue
+					}
+					for _, r2 := range *fa2.Referrers() {
+						if s2, ok := r2.(*ssa.Store); ok && s2.Addr == fa2 {
+							others = append(others, s2)
+						}
+					}
+				}
+			}
+			okDir := len(others) == 0
+			if _, fresh := fa.X.(*ssa.Alloc); !fresh && len(others) == 0 {
+				okDir = false // an entry handed in: its kind is not known here
+			}
+			for _, s2 := range others {
+				k2, isK2 := s2.Val.(*ssa.Const)
+				if !isK2 || !isConstString(k2) || constString(k2) != typeDir {
+					continue
+				}
+				if s2.Block() == st.Block() && instrIndexOf(s2) < instrIndexOf(st) || s2.Block() != st.Block() && s2.Block().Dominates(st.Block()) {
+					okDir = true
+				}
+			}
+			if !okDir {
+				// a test of the entry's own type in front of the store
+				for _, ref := range *fa.X.Referrers() {
+					fa2, ok := ref.(*ssa.FieldAddr)
+					if !ok || fieldName(fa2.X.Type(), fa2.Field) != "Type" {
+						continue
+					}
+					for _, r2 := range *fa2.Referrers() {
+						ld, ok := r2.(*ssa.UnOp)
+						if !ok {
+							continue
+						}
+						for _, r3 := range *ld.Referrers() {
+							bo, ok := r3.(*ssa.BinOp)
+							if !ok || bo.Op != token.EQL {
+								continue
+							}
+							kk, _ := bo.Y.(*ssa.Const)
+							if kk == nil || !isConstString(kk) || constString(kk) != typeDir {
+								continue
+							}
+							for _, r4 := range *bo.Referrers() {
+								if ifi, ok := r4.(*ssa.If); ok && (ifi.Block().Succs[0] == st.Block() || ifi.Block().Succs[0].Dominates(st.Block())) && len(ifi.Block().Succs[0].Preds) == 1 {
+									okDir = true
+								}
+							}
+						}
+					}
+				}
+			}
+			r.Check(okDir, "K8-implicit-only-dirs", fmt.Sprintf("implied-directory mark#%d in %s is set on a directory", k, c.funcKey(fn)), c.instrPos(st),
+				"the entry is demoted to an implied directory on a path where it was not just marked (or tested to be) a directory: a file or link whose destination is a path the filesystem package owns is left out of the package")
+		})
+	}
+	r.Floor("K8-implicit-only-dirs", n, 2)
 }
